@@ -18,6 +18,8 @@ structure Sess where
   mem    : Mem := {}
   /-- `obs=sparse` was given on a constructor line: no content sweep except in `observe` -/
   sparse : Bool := false
+  /-- `phys=quiet` was given on a constructor line: buffer checksum instead of the dump, except in `observe` -/
+  quiet  : Bool := false
 
 def nslot : Nat := 4
 def predEven (v : Nat) : Bool := v % 2 == 0
@@ -45,16 +47,29 @@ def obsM (s : Sess) : String :=
 def obsS (s : Sess) : String :=
   String.join ((List.range nslot).filterMap fun k => (getS s k).map fun l => s!" d{k}={fmtList l}")
 
-/-- private fields of one deque; dead slots print as `_` -/
-def physDeque (name : String) (k : Nat) (d : Deque) : String :=
-  let slots := (List.range d.cap).map fun j =>
-    if (j + d.cap - d.first % d.cap) % d.cap < d.size then toString (d.buf.get j) else "_"
-  s!"{name}{k}.size={d.size} {name}{k}.cap={d.cap} {name}{k}.first={d.first} {name}{k}.last={d.last} {name}{k}.buf=[{",".intercalate slots}]"
+/-- 64-bit FNV-1a style checksum of the slots, as `phys_deque` computes it in a `phys=quiet` session
+(per slot: mix 1 and the value if live, mix 0 if dead; arithmetic modulo 2^64) -/
+def bufSum (d : Deque) : UInt64 :=
+  let p : UInt64 := 0x100000001b3
+  let f := d.first % d.cap
+  let b := d.buf.take d.cap ++ List.replicate (d.cap - d.buf.length) 0
+  (b.foldl (fun (acc : UInt64 × Nat) v =>
+    let live := (acc.2 + d.cap - f) % d.cap < d.size
+    (if live then (((acc.1 ^^^ 1) * p) ^^^ v.toUInt64) * p else acc.1 * p, acc.2 + 1))
+    ((0xcbf29ce484222325 : UInt64), 0)).1
 
+/-- private fields of one deque; dead slots print as `_`; `full = false`: checksum instead of the dump -/
+def physDeque (name : String) (k : Nat) (d : Deque) (full : Bool := true) : String :=
+  let hd := s!"{name}{k}.size={d.size} {name}{k}.cap={d.cap} {name}{k}.first={d.first} {name}{k}.last={d.last} {name}{k}.buf="
+  if !full then s!"{hd}#{(bufSum d).toNat}" else
+  let b := d.buf.take d.cap ++ List.replicate (d.cap - d.buf.length) 0
+  let slots := b.mapIdx fun j v =>
+    if (j + d.cap - d.first % d.cap) % d.cap < d.size then toString v else "_"
+  s!"{hd}[{",".intercalate slots}]"
 def b01 (b : Bool) : String := if b then "1" else "0"
 
-def phys (s : Sess) : String :=
-  let ds := (List.range nslot).filterMap fun k => (getM s k).map (physDeque "d" k)
+def phys (s : Sess) (full : Bool := true) : String :=
+  let ds := (List.range nslot).filterMap fun k => (getM s k).map fun d => physDeque "d" k d full
   let i := match s.it with | some (k, it) => [s!"it={k}:{it.index}:{b01 it.lastRemoved}"] | none => []
   let z := match s.zit with | some (a, b, it) => [s!"zit={a}:{b}:{it.index}:{b01 it.lastRemoved}"] | none => []
   let all := ds ++ i ++ z
@@ -65,7 +80,7 @@ def inv (s : Sess) : Bool := s.models.all fun d => match d with | none => true |
 def fin (s : Sess) (hdS hdM : String) (sweep : Bool := false) : Sess × String × String :=
   let oS := if s.sparse && !sweep then "" else obsS s
   let oM := if s.sparse && !sweep then "" else obsM s
-  (s, s!"S {hdS}{oS}", s!"M {hdM}{oM} | {phys s} | {fmtMem s.mem} | {fmtFlags (inv s) s.mem}")
+  (s, s!"S {hdS}{oS}", s!"M {hdM}{oM} | {phys s (!s.quiet || sweep)} | {fmtMem s.mem} | {fmtFlags (inv s) s.mem}")
 
 def early (s : Sess) (m : Mem) (what : String) : Sess × String × String :=
   ({ s with mem := m }, s!"S st=- {what}", s!"M st=- {what} | - | {fmtMem m} | {fmtFlags true m}")
@@ -290,11 +305,12 @@ def step (s : Sess) (c : Cmd) : Sess × String × String :=
     let r := Deque.new cap (if c.op == "new" then .conf else .libc) m   -- cc_deque_new: C library triple
     let sp : Stat × Option (List Nat) := if c.fired > 0 then (.errAlloc, none) else (.ok, some [])
     let sparse := s.sparse || c.str "obs" == some "sparse"
-    fin (setS (setM { s with mem := r.2.2, sparse := sparse } k r.2.1) k sp.2) (fmtStat sp.1) (fmtStat r.1)
+    let quiet := s.quiet || c.str "phys" == some "quiet"
+    fin (setS (setM { s with mem := r.2.2, sparse := sparse, quiet := quiet } k r.2.1) k sp.2) (fmtStat sp.1) (fmtStat r.1)
   | "observe" => fin { s with mem := m } "st=-" "st=-" true
   | "destroy" =>
     let m := s.models.foldl (fun m d => match d with | some d => d.destroy m | none => m) m
-    fin { mem := m, sparse := s.sparse } "st=-" "st=-"
+    fin { mem := m, sparse := s.sparse, quiet := s.quiet } "st=-" "st=-"
   | "zit_new" =>
     let k2 := c.nat "o2" 1
     if k2 ≥ nslot ∨ (getM s k).isNone ∨ (getM s k2).isNone then early s m "nosession" else
